@@ -1,0 +1,23 @@
+//go:build verif
+
+package promql
+
+// C09 (aggregation `without (...)` groups by every label EXCEPT the listed
+// ones; an empty list is the identity): the aggregator later removes the listed
+// labels from a series' group id, so whenever the clause is `without` — with or
+// without labels — the parser asks for every series with all of its labels and
+// hands the flag on.  Checked by /verif/bin/govc.  Comment-only file.
+//@ func hasNestedAggregateExpr
+//@   assumed
+//@   pure
+//@   note frame only (ASSUMED): walks the parsed expression
+//@ end
+//@ func handleAggregateExpr
+//@   props C09
+//@   assumecalleerequires
+//@   requires expr != nil && mQuery != nil
+//@   ensures [without-asks-for-every-series-with-all-labels] implies(result1 == nil && expr.Without, mQuery.SelectAllSeries && mQuery.GetAllLabels && mQuery.FirstAggregator.Without)
+//@   ensures [no-grouping-and-not-without-is-one-group] implies(result1 == nil && len(expr.Grouping) == 0, mQuery.AggWithoutGroupBy)
+//@   loop 1:
+//@     invariant [flags-kept-while-the-grouping-filters-are-added] implies(expr.Without, mQuery.SelectAllSeries && mQuery.GetAllLabels && mQuery.FirstAggregator.Without) && implies(len(expr.Grouping) == 0, mQuery.AggWithoutGroupBy)
+//@ end
